@@ -7,7 +7,7 @@ From OFGA Require Import Sec.Authz.
 Extraction Language OCaml.
 Extraction "c26_model.ml"
   authorize write_authorize authorize_create_store authorize_system list_stores list_stores_sqlite accessible_stores
-  list_stores_pre_c075cf0 extract_modules is_allow
+  list_stores_pre_c075cf0 list_stores_from authorize_fault write_authorize_fault fault_fires with_fault fault_at extract_modules is_allow
   spec_allowed spec_write_allowed spec_system_allowed spec_relation relation_of
   method_of_bytes relation_of_bytes relation_bytes api_method_bytes all_api_methods all_relations
   handler_known_b handler_store_scoped_b handler_model_read_before_authz_b
